@@ -62,6 +62,7 @@ type Frame struct {
 	Unspec     string // lenient mode: a block fell into an UNSPEC class of the block reference
 	OutOfDom   string // lenient mode: descriptor uses features the properties do not rule on
 	EndMark    bool
+	NoFrame    bool // the input holds no data frame at all (empty, or skippable frames only)
 	Trailer    bool // legacy: kernel-style total-size trailer recognised (lenient only)
 	CSum       uint32
 }
@@ -105,8 +106,10 @@ func ParseFrame(b []byte, mode Mode) *Frame {
 	p := 0
 	for {
 		if len(b)-p < 4 {
-			if len(b)-p == 0 && p == 0 {
-				return f.trunc(p, "before any magic number (empty input)")
+			if len(b)-p == 0 {
+				// nothing, or only skippable frames: there is no data frame at all
+				f.NoFrame = true
+				return f.trunc(p, "before any frame magic number (no data frame)")
 			}
 			return f.trunc(p, "inside a magic number")
 		}
